@@ -20,9 +20,9 @@
     * against the rational no-rounding pipeline `Spec.C01.exactQ` (helper lemmas
       in Proofs/CalcErrorMore.lean), for the document class `DocC` (precise rule,
       prices not including tax, lines in the document currency without breakdown,
-      percentage (≤ 100 %) or fixed (≤ currency + 2 decimals) line discounts and
-      charges, percentage or fixed document discounts and charges, tax combos with or
-      without surcharge, retained categories,
+      line and document discounts and charges that are percentages (≤ 100 %) of the
+      sum or of an explicit base or fixed amounts (≤ currency + 2 decimals), tax
+      combos with or without surcharge, retained categories,
       percentage or fixed advances): `calc_eq_spec` — every presented total is the
       half-away rounding at currency precision of a working value whose distance
       from `exactQ d` is at most (number of contributing rounding points) × half a
@@ -32,11 +32,16 @@
       `presented_total_adj_within_one_unit`, `presented_tax_within_one_unit`,
       `presented_payment_within_one_unit` need only the part of the class they use.
   Not proved (exercised by the correspondence and the error-bound oracle only):
-    the same bound outside `DocC`: lines with a breakdown, foreign-currency items,
-    rate × quantity charges, percentages with an explicit base, fixed amounts finer
-    than currency + 2 decimals, included taxes (`prices_include`), the `currency` rule; of the presented rows only the line totals, the
-    advances and the due dates are covered (`calc_lines_spec`, `calc_payment_rows_spec`),
-    not the line sums / discount rows nor the rows of the tax summary.
+    the same bound outside `DocC`: lines with a breakdown, foreign-currency items and
+    rate × quantity charges (for these it is false: the three known findings), bases,
+    fixed amounts and roundings finer than currency + 2 decimals, included taxes
+    (`prices_include`), the `currency` rule.  Of the presented rows only the line
+    totals, the document discount / charge rows, the advances and the due dates are
+    covered (`calc_lines_spec`, `calc_adj_rows_spec`, `calc_payment_rows_spec`), not
+    the line sums, the line discount / charge rows and the rows of the tax summary.
+  The class is decidable: `Spec.C01.inDocC` (sound by `inDocC_sound`), evaluated by
+  the driver; the harness holds the real output of every in-class document to
+  `decided_class_bound`.
 -/
 import GoblVerif.Spec.C01
 import GoblVerif.Generated.CalcFacts
@@ -979,6 +984,19 @@ theorem calc_payment_rows_spec (ret : String → Bool) (d : Doc) (out : Out) (t 
         |w.toRat - dueQ (exactQ d).payable x| ≤ (1 + (twtW d (groupsT t) : ℚ)) * halfUlp (d.c + 2))
       d.dues out.dues :=
   payment_rows_shown d out t hd hp hdues hcalc ht
+
+/-- the document discount and charge rows of a document of the class `DocA`: each shown amount
+`Shows` (unchanged or rounded once, `Discount.round` / `Charge.round`) a working amount within
+`1 + sumW` half-units of the working precision of its exact value on the exact sum -/
+theorem calc_adj_rows_spec (d : Doc) (out : Out) (t : Totals) (hd : DocA d)
+    (hcalc : calculate exactOps d = .ok out) (ht : out.totals = some t) :
+    List.Forall₂ (fun x xo => ∃ w : Amount, Shows xo.amount w ∧
+        |w.toRat - docAdjQ (exactQ d).sum x| ≤ (1 + (sumW d.lines : ℚ)) * halfUlp (d.c + 2))
+      d.discounts out.discounts ∧
+    List.Forall₂ (fun x xo => ∃ w : Amount, Shows xo.amount w ∧
+        |w.toRat - docAdjQ (exactQ d).sum x| ≤ (1 + (sumW d.lines : ℚ)) * halfUlp (d.c + 2))
+      d.charges out.charges :=
+  adj_rows_shown d out t hd hcalc ht
 
 /-- `payDoc` with two due dates: 40 % of the payable amount and a fixed 10.00 -/
 def dueDoc : Doc :=
